@@ -404,7 +404,7 @@ func TestVerif_C17(t *testing.T) {
 	if !vosActive {
 		r.Cap("the os->vos import redirection is not active in this build (instrumentation degraded): only truncation is enumerated")
 	}
-	r.Rule("base files: 6 library-written files (one per feature) and small reference-library files with distinct feature signatures; (a) every truncation length 0..size-1 of every base file; (b) for every base file and every k, the k-th ReadAt of the full read-API traversal (Open, Walk, Info, Read, ReadSlice of the full extent twice on the same handle, full chunk iteration, ReadStrings, ReadCompound, Attributes+ReadValue) failing outright, and returning short with EOF; (c) for a 7-call write history under superblock 2 and 0, every k-th WriteAt / ReadAt / Sync failing (outright, and short for writes): the API call in which the fault fires must return an error, nothing may panic, Close must return. In (a),(b) every answer must be an error or identical to the intact file's and no member or attribute may be silently missing; non-trivial = the damaged file still opened")
+	r.Rule("base files: 6 library-written files (one per feature) and small reference-library files with distinct feature signatures; (a) every truncation length 0..size-1 of every base file; (b) for every base file and every k, the k-th ReadAt of the full read-API traversal (Open, Walk, Info, Read, ReadSlice of the full extent twice on the same handle, full chunk iteration, ReadStrings, ReadCompound, Attributes+ReadValue) failing outright, and returning short with EOF; (c) for a 20-call write history (groups, contiguous and chunked datasets, compact and dense attributes, a hard link, variable-length data rolling over a heap collection) under superblock 2 and 0, every k-th WriteAt / ReadAt / Sync failing (outright, and short for writes): the API call in which the fault fires must return an error, nothing may panic, Close must return. In (a),(b) every answer must be an error or identical to the intact file's and no member or attribute may be silently missing; non-trivial = the damaged file still opened")
 
 	// (a) truncation
 	for _, b := range bases {
@@ -532,6 +532,11 @@ func vfC17WriteFaults(r *vkit.Run, dir string) {
 	for i := 0; i < 9; i++ {
 		hist = append(hist, vfOp{Op: "attr", Path: "/c", Name: fmt.Sprintf("k%d", i), Value: "i64"})
 	}
+	// variable-length data: three 2000-byte elements roll over from one global heap collection
+	// to the next inside Write (the full collection is written then), a second dataset shares
+	// the open collection, the rest is written at Close
+	hist = append(hist, vfOp{Op: "mkds", Path: "/v", Type: "vstr", Dims: []uint64{3}}, vfOp{Op: "write", Path: "/v", Pat: 3},
+		vfOp{Op: "mkds", Path: "/v2", Type: "vstr", Dims: []uint64{2}}, vfOp{Op: "write", Path: "/v2", Pat: 1})
 	for _, sb := range []uint8{2, 0} {
 		// intact run: count calls
 		var finalDump func() string
